@@ -343,6 +343,8 @@ def run(cx, tier='quick'):
         if r == 'BOUND-USE':
             rep.checked.append((r, i, v))
             rep.counts['BOUND-USE'] = rep.counts.get('BOUND-USE', 0) + 1
+    from .scope import check_scopes
+    check_scopes(cx, rep, None)
     rep.floor('BND', 60)
     rep.floor('COMPANION', 2)
     rep.assumptions += ['"required trait" per handler is the pinned table (stand-alone Eq bounds field types by PartialEq)',
